@@ -218,6 +218,7 @@ def show(term: Any, limit: int = 400) -> str:
     return s if len(s) <= limit else s[:limit] + "…"
 
 
+<<<<<<< HEAD
 # ------------------------------------------------------------------ display-hook programs (C17)
 # val   := ('none',) ('ellipsis',) ('text', s) ('num', txt) ('html', s) ('reprHtml', s) ('tagRef', id) ('invalid',)
 # item  := ('text', s) ('html', s) ('robj', s) ('tagRef', id)
@@ -286,3 +287,127 @@ def p_hprog(t: Toks):
     if k == "b":
         return ("b", int(t.next()), p_list(t, p_hprog))
     raise ValueError(f"bad hook statement {k}")
+=======
+# ------------------------------------------------------------------ C14: argument values, stored elements, child operations
+# arg    := ('none',) | ('num', 'i'|'f'|'b', txt) | ('node', node) | ('list', [arg]) | ('tuple', [arg]) | ('tl', [arg])
+#         | ('seq', 'bytes'|'range'|'set'|'dict'|'gen', [arg]) | ('bad', k)
+# stored := ('n', node) | ('r', arg)
+# oarg   := ('v', arg) | ('self',) | ('inl', [arg], [arg])
+# op     := ('init', [arg]) | ('extend', oarg) | ('append', [oarg]) | ('insert', i, oarg) | ('add', oarg) | ('radd', oarg)
+#         | ('iadd', oarg) | ('slice', lo, hi, step) | ('mul', n) | ('rmul', n) | ('imul', n)
+def earg(a) -> str:
+    k = a[0]
+    if k == "none":
+        return "none"
+    if k == "num":
+        return "num " + a[1] + " " + es(a[2])
+    if k == "node":
+        return "node " + enode(a[1])
+    if k in ("list", "tuple", "tl"):
+        return k + " " + eargs(a[1])
+    if k == "seq":
+        return "seq " + a[1] + " " + eargs(a[2])
+    if k == "bad":
+        return "bad " + str(a[1])
+    raise ValueError(f"bad arg term {a!r}")
+
+
+def eargs(xs) -> str:
+    return elist([earg(x) for x in xs])
+
+
+def estored(x) -> str:
+    return ("n " + enode(x[1])) if x[0] == "n" else ("r " + earg(x[1]))
+
+
+def eoptint(v) -> str:
+    return "_" if v is None else str(v)
+
+
+def eoarg(a) -> str:
+    if a[0] == "v":
+        return "v " + earg(a[1])
+    if a[0] == "self":
+        return "self"
+    return "inl " + eargs(a[1]) + " " + eargs(a[2])
+
+
+def eop(o) -> str:
+    k = o[0]
+    if k == "init":
+        return "init " + eargs(o[1])
+    if k in ("extend", "add", "radd", "iadd"):
+        return k + " " + eoarg(o[1])
+    if k == "append":
+        return "append " + elist([eoarg(a) for a in o[1]])
+    if k == "insert":
+        return "insert " + str(o[1]) + " " + eoarg(o[2])
+    if k == "slice":
+        return "slice " + eoptint(o[1]) + " " + eoptint(o[2]) + " " + eoptint(o[3])
+    if k in ("mul", "rmul", "imul"):
+        return k + " " + str(o[1])
+    raise ValueError(f"bad op term {o!r}")
+
+
+def eops(ops) -> str:
+    return elist([eop(o) for o in ops])
+
+
+def p_int(t: Toks) -> int:
+    return int(t.next())
+
+
+def p_optint(t: Toks):
+    x = t.next()
+    return None if x == "_" else int(x)
+
+
+def p_arg(t: Toks):
+    k = t.next()
+    if k == "none":
+        return ("none",)
+    if k == "num":
+        return ("num", t.next(), p_str(t))
+    if k == "node":
+        return ("node", p_node(t))
+    if k in ("list", "tuple", "tl"):
+        return (k, p_list(t, p_arg))
+    if k == "seq":
+        return ("seq", t.next(), p_list(t, p_arg))
+    if k == "bad":
+        return ("bad", int(t.next()))
+    raise ValueError(k)
+
+
+def p_stored(t: Toks):
+    k = t.next()
+    return ("n", p_node(t)) if k == "n" else ("r", p_arg(t))
+
+
+def p_oarg(t: Toks):
+    k = t.next()
+    if k == "v":
+        return ("v", p_arg(t))
+    if k == "self":
+        return ("self",)
+    if k == "inl":
+        return ("inl", p_list(t, p_arg), p_list(t, p_arg))
+    raise ValueError(k)
+
+
+def p_op(t: Toks):
+    k = t.next()
+    if k == "init":
+        return ("init", p_list(t, p_arg))
+    if k in ("extend", "add", "radd", "iadd"):
+        return (k, p_oarg(t))
+    if k == "append":
+        return ("append", p_list(t, p_oarg))
+    if k == "insert":
+        return ("insert", p_int(t), p_oarg(t))
+    if k == "slice":
+        return ("slice", p_optint(t), p_optint(t), p_optint(t))
+    if k in ("mul", "rmul", "imul"):
+        return (k, p_int(t))
+    raise ValueError(k)
+>>>>>>> c14
